@@ -188,6 +188,19 @@ def check(ctx, rep):
         tries = enclosing_tries(f.node, s.call)
         missing = [e for e in REQUIRED if not any(catches(h, e) for tr in tries for h in tr.handlers)]
         root, inline_fn = f, None
+        if missing and f.cls is None:
+            # a module-level reader: the try may be held by its (single) calling function
+            callers = []
+            for g in prog.all_functions():
+                if g is f or not g.module.name.startswith("pygopherd"):
+                    continue
+                for call2, t2 in eff.calls_of(g, g.cls):
+                    if t2.kind == "repo" and f in t2.funcs:
+                        callers.append((g, call2))
+            if len({g for g, _ in callers}) == 1 and all(
+                    not [e for e in missing if not any(catches(h, e) for tr in enclosing_tries(g.node, call2) for h in tr.handlers)] for g, call2 in callers):
+                root, inline_fn, missing = callers[0][0], f, []
+                H = root.cls if root.cls is not None else H
         if missing and f.cls is not None:
             # the load may sit in a small reader method whose callers (in the same class hierarchy) hold the try
             callers = []
